@@ -1987,9 +1987,15 @@ func (r *TypeClassSummonContext) summonNamed(ctx CurrentContext, tc metafp.TypeC
 			})
 		},
 		ToReprExpr: func() string {
+			under := r.w.TypeName(ctx.working, named.Underlying.Type)
+			conv := under
+			if strings.HasPrefix(conv, "*") || strings.HasPrefix(conv, "<-") || strings.HasPrefix(conv, "func") {
+				// *int(v) parses as *(int(v))
+				conv = "(" + conv + ")"
+			}
 			return fmt.Sprintf(`func(v %s) %s {
 					return %s(v)
-				}`, nameWithTp, r.w.TypeName(ctx.working, named.Underlying.Type), r.w.TypeName(ctx.working, named.Underlying.Type))
+				}`, nameWithTp, under, conv)
 		},
 		FromReprExpr: func() string {
 			return fmt.Sprintf(`func(v %s) %s {
